@@ -39,6 +39,7 @@ type HandleObs struct {
 	C3   []int  `json:"c3"`
 	Dd   bool   `json:"dd"`   // collection c1 has the design document
 	Has1 bool   `json:"has1"` // ListDataStores lists collection c1
+	Q    string `json:"q"`    // a prepared (non-adhoc) query over each collection lists the documents its KV API sees: ok | differs:<coll> | err:<..>
 }
 type FeedLifeObs struct {
 	N     int  `json:"n"`     // callbacks since the previous line
@@ -306,7 +307,7 @@ func (lr *lifeRun) exec(a *LifeAct) (string, string) {
 }
 
 func (lr *lifeRun) probe(b *rosmar.Bucket) HandleObs {
-	o := HandleObs{Cls: "ok", C0: []int{}, C1: []int{}, C2: []int{}, C3: []int{}}
+	o := HandleObs{Cls: "ok", C0: []int{}, C1: []int{}, C2: []int{}, C3: []int{}, Q: "ok"}
 	cls, _ := withTimeout(3*time.Second, func() (string, error) {
 		names, err := b.ListDataStores()
 		if err != nil {
@@ -332,6 +333,37 @@ func (lr *lifeRun) probe(b *rosmar.Bucket) HandleObs {
 			if c == "c1" {
 				if dd, err := ds.(*rosmar.Collection).GetDDocs(); err == nil {
 					_, o.Dd = dd["vd"]
+				}
+			}
+			var kv []string
+			for id := 1; id <= lr.maxID; id++ {
+				ok, err := ds.Exists(fmt.Sprintf("w%d", id))
+				if err != nil {
+					return classify(err), err
+				}
+				if ok {
+					kv = append(kv, fmt.Sprintf("w%d", id))
+				}
+			}
+			sort.Strings(kv)
+			if o.Q == "ok" {
+				// the same statement text every time, prepared (adhoc=false)
+				it, err := ds.(*rosmar.Collection).Query(sgbucket.SQLiteLanguage,
+					`SELECT json_quote(id) AS id FROM $_keyspace WHERE id LIKE 'w%' ORDER BY id`, nil, sgbucket.RequestPlus, false)
+				if err != nil {
+					o.Q = "err:" + classify(err)
+				} else {
+					var ids []string
+					var row map[string]any
+					for it.Next(context.Background(), &row) {
+						ids = append(ids, fmt.Sprint(row["id"]))
+						row = nil
+					}
+					_ = it.Close()
+					sort.Strings(ids)
+					if strings.Join(ids, ",") != strings.Join(kv, ",") {
+						o.Q = "differs:" + c + " query=" + strings.Join(ids, ",") + " kv=" + strings.Join(kv, ",")
+					}
 				}
 			}
 			for id := 1; id <= lr.maxID; id++ {
@@ -400,11 +432,11 @@ func (lr *lifeRun) observe(line *LifeLine, prevN map[string]int, baseGor int) {
 		if b := lr.hs[h]; b != nil && !lr.used[h] {
 			// a handle is looked through only once the behaviour itself has used it: looking caches the collections in
 			// the handle, and a handle that has never touched a collection is a state of its own
-			line.Hs[h] = HandleObs{Cls: "skip", C0: []int{}, C1: []int{}, C2: []int{}, C3: []int{}}
+			line.Hs[h] = HandleObs{Cls: "skip", C0: []int{}, C1: []int{}, C2: []int{}, C3: []int{}, Q: "ok"}
 		} else if b != nil {
 			line.Hs[h] = lr.probe(b)
 		} else {
-			line.Hs[h] = HandleObs{Cls: "none", C0: []int{}, C1: []int{}, C2: []int{}, C3: []int{}}
+			line.Hs[h] = HandleObs{Cls: "none", C0: []int{}, C1: []int{}, C2: []int{}, C3: []int{}, Q: "ok"}
 		}
 	}
 	line.Fd = map[string]FeedLifeObs{}
